@@ -3,6 +3,7 @@ import TucanProofs.Lemmas.RoundTripPipeline
 import TucanProofs.Lemmas.OracleNonempty
 import TucanProofs.Lemmas.RespellAst
 import TucanProofs.Lemmas.MoreExamples
+import TucanProofs.Lemmas.RespellPerm
 /-!
 # C11 — any valid spelling of a molecule normalizes to its one canonical string
 
@@ -41,7 +42,7 @@ theorem C11_respelling (O : CanonOracle) (st st' : ListenerState) (h : GoodState
 (`SameMeaning`: the same formula; the same set of bonded pairs — tuples in any order, endpoints either way round,
 a tuple any number of times; the same attribute settings — blocks in any order, split or merged, properties in
 any order) normalize to the same string, for every oracle meeting the bliss contract.  (Renumbering atoms inside
-an element block is `C11_respelling` with a non-identity `π`.) -/
+an element block: `C11_renumbered_strings`.) -/
 theorem C11_respelled_strings (O : CanonOracle) (s s' : Str) (toks toks' : List Tok) (ast ast' : Ast)
     (hl : lex s = some toks) (hsen : Sentence toks ast) (hl' : lex s' = some toks') (hsen' : Sentence toks' ast')
     (same : SameMeaning ast ast') (g g' : Graph)
@@ -49,14 +50,38 @@ theorem C11_respelled_strings (O : CanonOracle) (s s' : Str) (toks toks' : List 
     (t t' : Str) (ht : tucanOf O.order g = .ok t) (ht' : tucanOf O.order g' = .ok t') : t = t' :=
   respelling_same_string O s s' toks toks' ast ast' hl hsen hl' hsen' same g g' hg hg' t t' ht ht'
 
-/-- every accepted string denotes a molecule graph: a `GoodState` listener state, and a well-formed simple
-graph of chemistry-level atoms on the labels `0 … n-1` -/
+/-- **Respelling with atoms renumbered inside an element block, at the level of strings.**  The second string may
+number the atoms differently: `π` (0-based positions; the indices written in the strings are positions + 1) is a
+bijection of the positions that keeps every atom inside its element block (`sortedSymbols`: the formula's expansion
+by non-decreasing atomic number), and the second tree's bonds and attribute settings are the first tree's carried
+along by `π` (`SameMeaningUpTo π`).  Both strings normalize to the same string, for every oracle meeting the bliss
+contract. -/
+theorem C11_renumbered_strings (O : CanonOracle) (π : Nat → Nat) (s s' : Str) (toks toks' : List Tok)
+    (ast ast' : Ast)
+    (hl : lex s = some toks) (hsen : Sentence toks ast) (hl' : lex s' = some toks') (hsen' : Sentence toks' ast')
+    (same : SameMeaningUpTo π ast ast') (g g' : Graph)
+    (hg : graphFromTucan s = .ok g) (hg' : graphFromTucan s' = .ok g')
+    (t t' : Str) (ht : tucanOf O.order g = .ok t) (ht' : tucanOf O.order g' = .ok t') : t = t' :=
+  respelling_same_string_perm O π s s' toks toks' ast ast' hl hsen hl' hsen' same g g' hg hg' t t' ht ht'
+
+/-- non-vacuity of `C11_renumbered_strings`: `CH2O/(1-3)(3-4)/(1:mass=2)` and `CH2O/(4-3)(2-3)/(2:mass=2)` — the two
+hydrogen atoms numbered the other way round, the deuterium label and its bond moving with them -/
+example : SameMeaningUpTo RespellPermExample.swap01 RespellPermExample.astD RespellPermExample.astE ∧
+    RespellPermExample.swap01 ≠ id ∧ RespellPermExample.astD.Valid ∧ RespellPermExample.astE.Valid :=
+  RespellPermExample.sameMeaningUpTo_DE
+
+/-- every accepted string denotes a molecule graph: the listener state the three listeners compute from the
+string's own syntax tree (atoms from the formula, bonds from the tuples, attribute records from the blocks) is a
+`GoodState`, `to_graph` of that state is the returned graph, and the graph is a well-formed simple graph of
+chemistry-level atoms on the labels `0 … n-1`.  (What the graph is in terms of the tree: `C10_denotes`.) -/
 theorem C11_accepted_string_denotes_molecule (s : Str) (g : Graph) (h : graphFromTucan s = .ok g) :
-    (∃ toks ast st, lex s = some toks ∧ parseTucan toks = some ast ∧ toGraph st = .ok g ∧ GoodState st) ∧
+    (∃ toks ast st, lex s = some toks ∧ parseTucan toks = some ast ∧
+      listenFormula ast.formula = .ok st.atoms ∧ listenTuples ast.tuples = .ok st.bonds ∧
+      listenAttrs ast.attrs = .ok st.nodeAttrs ∧ toGraph st = .ok g ∧ GoodState st) ∧
     g.WF ∧ g.Simple ∧ g.MolAtoms := by
-  obtain ⟨toks, ast, st, h1, h2, _, _, _, h6, h7⟩ := graphFromTucan_state s g h
+  obtain ⟨toks, ast, st, h1, h2, h3, h4, h5, h6, h7⟩ := graphFromTucan_state s g h
   obtain ⟨gw, gs, gm, _, _⟩ := graphFromTucan_mol s g h
-  exact ⟨⟨toks, ast, st, h1, h2, h6, h7⟩, gw, gs, gm⟩
+  exact ⟨⟨toks, ast, st, h1, h2, h3, h4, h5, h6, h7⟩, gw, gs, gm⟩
 
 /-- **Idempotence.**  `norm (norm s) = norm s`: the canonical string of any accepted string parses, and
 normalizing it again returns the identical string. -/
